@@ -374,7 +374,16 @@ def floor_ops_accept(minimum=1, skip=()):
     return f
 
 
+def floor_bucket_prefix(prefix, minimum):
+    def f(m):
+        n = sum(1 for k, v in m["buckets"].items() if k.startswith(prefix) and v > 0)
+        if n < minimum:
+            return f"only {n} buckets with prefix {prefix!r} were hit (need {minimum})"
+    return f
+
+
 FLOORS = {
+    "C05": [floor_bucket_prefix("original-verified-by-both/", 60)],
     "C01": [floor_ops_accept(skip=("ReadSignature#9", "ReadSignature#10"))],
     "C03": [floor_ops_accept()],
 }
